@@ -830,8 +830,11 @@ def main():
     }
     ev = {"property_id": pid, "tier": args.tier, "seed": seed, "level": level, "coverage": cov,
           "assumptions": sorted(assumptions), "wall_s": round(time.time() - t0, 1), "violations": real_violations}
-    os.makedirs(os.path.join(OUTROOT, "evidence"), exist_ok=True)
-    json.dump(ev, open(os.path.join(OUTROOT, "evidence", pid + ".json"), "w"), indent=1, default=str)
+    # a run restricted to one unit or one entry is a development run: it must not overwrite the property's evidence
+    partial = args.vu is not None or os.environ.get("VERIF_ENTRY") or os.environ.get("VERIF_NO_COVER") or os.environ.get("VERIF_NO_CANARY")
+    evdir = os.path.join(OUTROOT, "work", "partial-evidence") if partial else os.path.join(OUTROOT, "evidence")
+    os.makedirs(evdir, exist_ok=True)
+    json.dump(ev, open(os.path.join(evdir, pid + ".json"), "w"), indent=1, default=str)
 
     if not args.keep:
         shutil.rmtree(workroot, ignore_errors=True)
